@@ -1,6 +1,6 @@
 (* CodecOracle.v — glue for the C01/C02/C03 cases files. *)
 From Coq Require Import NArith ZArith Ascii String List Bool.
-From PyC Require Import Base Cbor Value Codec.
+From PyC Require Import Base Cbor Value Codec CodecSites.
 Import ListNotations.
 
 Definition prim_of (bs : bytes) : cbor := match decode bs with Some p => p | None => CS 23 end.
@@ -20,3 +20,10 @@ Definition c01_rt_ok (S : schema) (c : string) (bs : bytes) : bool :=
 
 Definition err_class {A} (r : res A) : N :=
   match r with Ok _ => 0 | EDeser => 1 | EOther _ => 2 | EFuel => 3 end%N.
+
+(* bytes -> object: the restored tree is the original tree (as Python's == sees it) and re-encodes to the bytes *)
+Definition c01_rt_exact (S : schema) (c : string) (v : pv) (bs : bytes) : bool :=
+  match from_cbor S c bs with
+  | Ok v' => pv_eqb v' v && res_bytes_eqb (to_cbor S v') bs
+  | _ => false
+  end.
